@@ -82,6 +82,8 @@ type recT struct {
 	verdict string // pass | fail | skip | panic
 	panicV  string
 	ran     int
+	// verdict of the companion script, if the run had one
+	companion string
 }
 
 func (t *recT) Skip(a ...any) {
@@ -102,6 +104,15 @@ func (t *recT) Log(a ...any) {
 func (t *recT) FailNow()      { panic(failSentinel) }
 func (t *recT) Verbose() bool { return false }
 func (t *recT) Run(name string, f func(testscript.T)) {
+	if strings.HasPrefix(name, "zz-companion") {
+		// the second script of the run (see runFile): its verdict and log are its own
+		ct := &recT{}
+		ct.Run("companion", f)
+		t.mu.Lock()
+		t.companion = ct.verdict + " " + ct.panicV
+		t.mu.Unlock()
+		return
+	}
 	t.ran++
 	defer func() {
 		switch e := recover(); e {
@@ -135,6 +146,9 @@ type runner struct {
 }
 
 type outcome struct {
+	// the companion script of the run (same entry names, nothing to update): what became of its file
+	CompanionBefore, CompanionAfter []byte
+	CompanionVerdict                string
 	Verdict   string
 	Panic     string
 	Log       string
@@ -146,11 +160,39 @@ var longAgo = time.Date(2001, 2, 3, 4, 5, 6, 0, time.UTC)
 
 // runFile runs the real RunT on the one script file and reads the file back.
 func (r *runner) runFile(file string, update bool) (o outcome) {
+	return r.runFiles(file, update, nil)
+}
+
+// companionOf makes a second script for the same run: its archive has entries named like those of the case, with
+// contents of its own, and its script compares nothing: whatever the case's comparisons record is not its business.
+func companionOf(orig []byte) []byte {
+	a := txtar.Parse(orig)
+	c := &txtar.Archive{Comment: []byte("# companion of the case: same entry names, nothing to update\n")}
+	seen := map[string]bool{}
+	for _, f := range a.Files {
+		if !seen[f.Name] {
+			seen[f.Name] = true
+			c.Files = append(c.Files, txtar.File{Name: f.Name, Data: []byte("companion keeps this\n")})
+		}
+	}
+	return txtar.Format(c)
+}
+
+func (r *runner) runFiles(file string, update bool, companion []byte) (o outcome) {
 	if err := os.Chtimes(file, longAgo, longAgo); err != nil {
 		vutil.Fatalf("chtimes: %v", err)
 	}
+	files := []string{file}
+	cfile := filepath.Join(filepath.Dir(file), "zz-companion.txtar")
+	if companion != nil {
+		if err := os.WriteFile(cfile, companion, 0o666); err != nil {
+			vutil.Fatalf("write: %v", err)
+		}
+		files = append(files, cfile)
+		defer os.Remove(cfile)
+	}
 	p := testscript.Params{
-		Files:         []string{file},
+		Files:         files,
 		UpdateScripts: update,
 		Setup: func(env *testscript.Env) error {
 			env.Setenv("PATH", r.binDir+string(os.PathListSeparator)+env.Getenv("PATH"))
@@ -169,6 +211,10 @@ func (r *runner) runFile(file string, update bool) (o outcome) {
 		testscript.RunT(t, p)
 	}()
 	o.Verdict, o.Panic, o.Log = t.verdict, t.panicV, t.log.String()
+	if companion != nil {
+		o.CompanionBefore, o.CompanionVerdict = companion, t.companion
+		o.CompanionAfter, _ = os.ReadFile(cfile)
+	}
 	if t.ran != 1 && o.Verdict != "panic" {
 		vutil.Fatalf("RunT started %d subtests for one file", t.ran)
 	}
@@ -211,6 +257,9 @@ func (r *runner) describe(c *caseT) string {
 	}
 	if c.Variant == "stop" {
 		d += "; the script ends with a stop line"
+	}
+	if c.Variant == "again" {
+		d += "; the script then compares the golden file of slot 1 with a further entry of the same content"
 	}
 	if c.Variant == "dup" {
 		d += "; a stale second entry named like the first golden stands in front"
@@ -361,7 +410,19 @@ func (r *runner) runCase(idx int, c *caseT) {
 	if err := os.WriteFile(file, orig, 0o666); err != nil {
 		vutil.Fatalf("write: %v", err)
 	}
-	o1 := r.runFile(file, true)
+	var comp []byte
+	if idx%3 == 1 && c.Variant != "dup" {
+		comp = companionOf(orig)
+	}
+	o1 := r.runFiles(file, true, comp)
+	if comp != nil {
+		res.Count("runs_with_companion_script", 1)
+		if !bytes.Equal(o1.CompanionAfter, o1.CompanionBefore) || strings.TrimSpace(o1.CompanionVerdict) != "pass" {
+			j.violate("other-script-of-the-run-modified", "", fmt.Sprintf("a second script of the same RunT call (entries named like the case's, no comparison at all) "+
+				"ended as %q and its file went from %q to %q", o1.CompanionVerdict, o1.CompanionBefore, o1.CompanionAfter),
+				map[string]any{"run": "first (UpdateScripts)", "companion_before": string(o1.CompanionBefore), "companion_after": string(o1.CompanionAfter)})
+		}
+	}
 	if r.selfbug != "" {
 		o1.After = tamper(r.selfbug, o1.After, orig, c)
 		os.WriteFile(file, o1.After, 0o666)
@@ -432,6 +493,35 @@ func (r *runner) runCase(idx int, c *caseT) {
 			}
 		} else if firstClean && o2.Verdict != c.Second.Verdict {
 			j.drift("second-verdict-differs-from-model", fmt.Sprintf("run 2 ended as %q, the model says %q", o2.Verdict, c.Second.Verdict))
+		}
+	}
+
+	// ---- run 1'': the script text with CR LF line endings (entries as they are), when an update has to be written: the
+	// ---- text stays byte for byte what it was, carriage returns included
+	if c.Updated > 0 && lawful && firstClean && r.selfbug == "" && idx%4 == 2 {
+		a := txtar.Parse(orig)
+		crText := bytes.ReplaceAll(a.Comment, []byte("\n"), []byte("\r\n"))
+		cr := append(append([]byte{}, crText...), orig[len(a.Comment):]...)
+		if b := txtar.Parse(cr); bytes.Equal(b.Comment, crText) && len(b.Files) == len(a.Files) {
+			crdir := filepath.Join(dir, "cr")
+			os.MkdirAll(crdir, 0o777)
+			file := filepath.Join(crdir, "case.txtar")
+			if err := os.WriteFile(file, cr, 0o666); err != nil {
+				vutil.Fatalf("write: %v", err)
+			}
+			res.Count("crlf_runs", 1)
+			o := r.runFile(file, true)
+			det := map[string]any{"run": "first (UpdateScripts), script text with CR LF line endings", "script": string(cr), "verdict": o.Verdict,
+				"panic": o.Panic, "file_after": string(o.After), "log": tail(o.Log, 1500)}
+			if o.Verdict != o1.Verdict {
+				j.drift("crlf-verdict-differs", fmt.Sprintf("the same script with CR LF line endings ended as %q instead of %q", o.Verdict, o1.Verdict))
+			} else if o.Verdict == "pass" {
+				after := txtar.Parse(o.After)
+				if !bytes.Equal(after.Comment, crText) {
+					j.violate("script-text-changed", "", fmt.Sprintf("the script text (CR LF line endings) is not byte for byte what it was after the update: %q became %q",
+						crText, after.Comment), det)
+				}
+			}
 		}
 	}
 
